@@ -263,3 +263,21 @@ def slice_range(e):
         return None
     return (0, None)
 
+
+
+def slice_base(e):
+    """the expression whose part `slice_range(e)` describes (what remains after
+    peeling constant-range indexing and split_at halves)"""
+    from kernel import unmut
+    e = unmut(e)
+    for _ in range(8):
+        if e.k == "call" and e.a[0].name in ("index", "index_mut") and len(e.a[1]) == 2 and e.a[0].trait in ("std::ops::Index", "std::ops::IndexMut"):
+            e = unmut(e.a[1][0])
+            continue
+        if e.k == "field" and e.a[1] in ("0", "1"):
+            s = unmut(e.a[0])
+            if s.k == "call" and s.a[0].name in ("split_at", "split_at_mut") and len(s.a[1]) == 2 and s.a[0].krate in ("core", "alloc", "std"):
+                e = unmut(s.a[1][0])
+                continue
+        break
+    return e
